@@ -23,7 +23,11 @@ open ScyllaVerif.Ring ScyllaVerif.Replicas
 structure KNode where
   node : Node
   addr : Nat
+  /-- `is_enabled()`: in production `pool.is_some()`; in hook-built states the verification override, which may
+  differ from `pool` -/
   enabled : Bool
+  /-- `pool.is_some()`: does the node object carry a connection pool -/
+  pool : Bool
   deriving Repr, DecidableEq
 
 /-- A peer of the new metadata; `accepted` is the host filter's verdict (`is_enabled` in the code). -/
@@ -45,14 +49,14 @@ def pickNode (known : List KNode) (p : MPeer) : KNode :=
   | false, some k =>
     if !k.enabled && decide (k.node.dc = p.node.dc) && decide (k.node.rack = p.node.rack) && decide (k.addr = p.addr)
     then k                                            -- `Arc::clone(node)`
-    else ⟨p.node, p.addr, false⟩                       -- `Node::new_disabled(peer_endpoint)`
-  | false, none => ⟨p.node, p.addr, false⟩
+    else ⟨p.node, p.addr, false, false⟩                -- `Node::new_disabled(peer_endpoint)`: no pool
+  | false, none => ⟨p.node, p.addr, false, false⟩
   | true, some k =>
     if k.enabled && decide (k.node.dc = p.node.dc) && decide (k.node.rack = p.node.rack) then
       if k.addr = p.addr then k                       -- `Arc::clone(node)`
-      else ⟨⟨k.node.id, k.node.dc, k.node.rack⟩, p.addr, true⟩   -- `inherit_with_ip_changed`: dc, rack of the old node
-    else ⟨p.node, p.addr, true⟩                        -- `Node::new(peer_endpoint, ..)`
-  | true, none => ⟨p.node, p.addr, true⟩
+      else ⟨⟨k.node.id, k.node.dc, k.node.rack⟩, p.addr, true, k.pool⟩   -- `inherit_with_ip_changed`: dc, rack, pool of the old node
+    else ⟨p.node, p.addr, true, true⟩                  -- `Node::new(peer_endpoint, ..)`: a pool is created
+  | true, none => ⟨p.node, p.addr, true, true⟩
 
 /-- Which arm of the reuse `match` a peer takes, as observable from outside: the previous `Arc<Node>` itself
 (`reused`), a new object that inherits the old one's pool and settings (`inherited`), or a new node (`fresh`). -/
